@@ -949,11 +949,20 @@ def gen_byte_api(rng, tier, dirs, budget, with_count=False):
                            dict(cfg=variant, family="count-%s" % be, untraced_widths=UNTRACED.get(be)))
         if budget and n >= budget:
             return
-    # raw forms with start >= end
-    for (s, e) in ((5, 5), (6, 5), (10, 0)):
-        for d in dirs:
-            for be, variant in (("avx2", "host"), ("sse2", "host"), ("swar", "host"), ("neon", "neon"), ("simd128", "simd128")):
-                yield ("memchr %s 61 %s 0 %d %d %s" % (be, d, s, e, hx([0x61] * 10)), dict(cfg=variant, family="memchr-empty"))
+    # raw forms with start >= end: every searcher (1, 2, 3 needles) of every module, empty and
+    # REVERSED windows of every size class (a reversed window wider than a vector / the unrolled
+    # loop must still be "empty")
+    for (hl, s, e) in ((10, 5, 5), (10, 6, 5), (10, 10, 0), (40, 15, 1), (40, 40, 0), (100, 99, 3), (300, 290, 7), (300, 300, 300), (300, 0, 0)):
+        for k in (1, 2, 3):
+            needles = NEEDLE_SETS[k][0]
+            for d in dirs:
+                for be, variant in (("avx2", "host"), ("sse2", "host"), ("swar", "host"), ("neon", "neon"), ("simd128", "simd128")):
+                    for base in (0, 1, 17):
+                        yield ("memchr %s %s %s %d %d %d %s" % (be, hx(needles), d, base, s, e, "r%dx%02x" % (hl, needles[0])),
+                               dict(cfg=variant, family="memchr-empty"))
+                    if k == 1 and with_count and d == dirs[0]:
+                        yield ("count %s %s 0 %d %d %s" % (be, hx(needles), s, e, "r%dx%02x" % (hl, needles[0])),
+                               dict(cfg=variant, family="count-empty"))
 
 
 def g_c01(rng, tier, budget):
@@ -1059,9 +1068,21 @@ def gen_iter_consumed(rng, tier):
             for j in (0, 3):
                 if j >= length:
                     continue
-                for ops, pos in (("nb", j), ("nbb", j), ("bn", length - 1 - j), ("bnn", length - 1 - j)):
-                    hh = "r%dx2e+%02x+r%dx2e" % (pos, needles[-1], length - pos - 1)
-                    for a in aligns:
+                shapes = [("nb", [j]), ("nbb", [j]), ("bn", [length - 1 - j]), ("bnn", [length - 1 - j])]
+                if length >= 2 + j:
+                    # two ADJACENT matches: one end takes the outer one, the other end must then
+                    # find the inner one, which is the first / last byte of the remaining window
+                    shapes += [("nb", [j, j + 1]), ("bn", [length - 2 - j, length - 1 - j]),
+                               ("nbn", [j, j + 1]), ("bnb", [length - 2 - j, length - 1 - j])]
+                for ops, poss in shapes:
+                    parts, prev = [], 0
+                    for q in poss:
+                        parts += ["r%dx2e" % (q - prev), "%02x" % needles[-1]]
+                        prev = q + 1
+                    parts.append("r%dx2e" % (length - prev))
+                    hh = "+".join(parts)
+                    full = len(poss) == 2 and k == 1 and j == 0 and len(ops) == 2 and length <= 140
+                    for a in (range(64) if full else aligns):
                         for (variant, picked, direct) in cfgs:
                             yield ("iterd %s %s %d %s %s" % (picked, hx(needles), a, hh, ops),
                                    dict(cfg=variant, family="iterd-consumed", untraced_widths=UNTRACED.get(picked)))
@@ -1429,6 +1450,7 @@ def g_c10(rng, tier, budget):
 def g_c16(rng, tier, budget):
     rngl = rng
     yield from gen_finder_alias(rng, tier)
+    yield from gen_finder_alias2(rng, tier)
     # clone / into_owned of partially consumed iterators at every point (shared with C08)
     for op, meta in g_c08(rng, tier, budget):
         if "convert-at" in meta.get("family", "") or "-clone" in meta.get("family", ""):
@@ -1488,6 +1510,37 @@ def gen_finder_alias(rng, tier):
                                    dict(cfg=variant, family="finderops-alias"))
                             yield ("finderrevopsal %s %d %s %s" % (cfg, off, hx(needle), ops),
                                    dict(cfg=variant, family="finderrevops-alias"))
+
+
+def gen_finder_alias2(rng, tier):
+    """needle and haystack are two arbitrary (overlapping, nested, prefix-of-each-other) windows
+    of ONE buffer: haystack shorter than the needle and starting at the needle's address,
+    haystack = a prefix / suffix / inner part of the needle, needle inside the haystack, ..."""
+    bufs = [list(b"abcabcabcabcabcabc"), [0x61] * 24, list(b"xyzzy-xyzzy-xyzzy-xyzzy-"), list(b"aabaabaabaab"),
+            [0x61 + (i * 7) % 26 for i in range(90)]]
+    for buf in bufs:
+        B = len(buf)
+        wins = []
+        for no in (0, 1, 2, 3, B // 2):
+            for nl in (1, 2, 3, 4, 6, 9, 17, 33, 40):
+                if no + nl <= B:
+                    wins.append((no, nl))
+        for (no, nl) in wins:
+            needle = buf[no:no + nl]
+            subs = set()
+            for ho in (no, 0, no + 1, max(0, no - 1), no + nl - 1, no + nl):
+                for hl in (0, 1, nl - 1, nl, nl + 1, 2 * nl, B - ho, 3):
+                    if 0 <= ho <= B and hl >= 0 and ho + hl <= B:
+                        subs.add((ho, hl))
+            subs = sorted(subs)
+            toks = []
+            for (ho, hl) in subs:
+                toks += ["s:%d:%d" % (ho, hl), "j:%d:%d" % (ho, hl)]
+            for conv in ([], ["k"], ["r"], ["o"]):
+                ops = ",".join(["f:" + hx(buf)] + conv + toks)
+                for (variant, cfg) in MM_CFGS_QUICK[:3] if tier == "quick" else MM_CFGS_QUICK:
+                    yield ("finderopsal %s auto %d %s %s" % (cfg, no, hx(needle), ops), dict(cfg=variant, family="finderops-alias2"))
+                    yield ("finderrevopsal %s %d %s %s" % (cfg, no, hx(needle), ops), dict(cfg=variant, family="finderrevops-alias2"))
 
 
 def g_c17(rng, tier, budget):
@@ -1621,13 +1674,39 @@ def greedy_count(hay, needle, rev=False):
         pos = i + len(needle)
 
 
+# wall-clock guard: ns per byte of (haystack + needle) and a constant; see tools/props.py
+C13_NS_PER_BYTE = 600
+C13_NS_CONST = 200_000_000
+
+
+def c13_huge(rng, tier):
+    """megabyte inputs for the wall-clock guard: work that hides in library calls (memcmp, ...)
+    is invisible to the step counters and needs sizes at which n^2 dwarfs any constant"""
+    for n in ((2 ** 20, 2 ** 21) if tier == "quick" else (2 ** 20, 2 ** 21, 2 ** 22)):
+        m = n // 4
+        # a candidate-free prefix banks prefilter credit; then every position of a long run is a
+        # candidate sharing m-1 bytes with the needle (pair selection only sees the first 255 bytes)
+        yield ("credit-then-run", join_parts([rep("61", m - 1), "62"]), m, join_parts([rep("7a", n), rep("61", n // 8 + 2 * m)]), n + n // 8 + 2 * m)
+        yield ("credit-then-run-rev", join_parts(["62", rep("61", m - 1)]), m, join_parts([rep("61", n // 8 + 2 * m), rep("7a", n)]), n + n // 8 + 2 * m)
+        yield ("run-only", join_parts([rep("61", m - 1), "62"]), m, rep("61", n), n)
+        yield ("periodic-huge", rep("6162", m // 2), (m // 2) * 2, join_parts([rep("7a", n // 2), rep("6162", n // 4 - 1), "6163", rep("6162", n // 8)]), n // 2 + (n // 4) * 2 + (n // 8) * 2)
+        yield ("short-needle-credit", join_parts([rep("61", 299), "62"]), 300, join_parts([rep("7a", n), rep("61", n)]), 2 * n)
+
+
 def g_c13(rng, tier, budget):
     sizes = [2 ** k for k in (range(8, 17) if tier == "quick" else range(8, 21))]
     cfgs = MM_CFGS_QUICK[:3] if tier == "quick" else MM_CFGS_QUICK
+    for name, nx, m, hxpr, n in c13_huge(rng, tier):
+        meta = dict(cfg="host", family="c13-huge-" + name, bound=C13_K * (n + m) + C13_K0, size=n + m,
+                    tbound_ns=C13_NS_PER_BYTE * (n + m) + C13_NS_CONST)
+        yield ("find avx2 auto default 1 0 %s 0 %s" % (nx, hxpr), dict(meta))
+        yield ("find avx2 none default 1 0 %s 0 %s" % (nx, hxpr), dict(meta))
+        yield ("rfind avx2 %s 0 %s" % (nx, hxpr), dict(meta))
     for name, nx, m, hxpr, n in c13_families(rng, sizes):
         bound = C13_K * (n + m) + C13_K0
         for (variant, cfg) in cfgs:
-            meta = dict(cfg=variant, family="c13-" + name, bound=bound, size=n + m)
+            meta = dict(cfg=variant, family="c13-" + name, bound=bound, size=n + m,
+                        tbound_ns=C13_NS_PER_BYTE * (n + m) + C13_NS_CONST)
             yield ("find %s auto default 1 0 %s 0 %s" % (cfg, nx, hxpr), dict(meta))
             yield ("fnew %s auto default %s" % (cfg, nx), dict(meta, bound=C13_K * m + C13_K0))
             if cfg == "avx2":
@@ -1812,3 +1891,23 @@ def _c05_surface(rng, tier):
 
 
 _wrap("C05", _c05_surface)
+
+
+def gen_surface_ppforeign(rng, tier):
+    """a pair selected on ANOTHER, longer needle handed to the safe `with_pair` of every finder"""
+    for (variant, isas) in (("host", ["fallback", "sse2", "avx2"]), ("neon", ["neon"]), ("simd128", ["simd128"])):
+        for sl in (1, 2, 3, 5, 16, 17, 33):
+            short = [0x61 + (i % 7) for i in range(sl)]
+            for ll in (sl, sl + 1, sl + 3, 40, 300):
+                if ll < sl:
+                    continue
+                long = [0x61 + (i % 7) for i in range(ll)]
+                idx = sorted(set([0, 1, sl - 1, sl, sl + 1, ll - 1, min(ll - 1, 255)]) & set(range(min(ll, 256))))
+                for i1 in idx:
+                    for i2 in idx:
+                        for isa in isas:
+                            yield ("ppforeign %s %s %s %d %d" % (isa, hx(short), hx(long), i1, i2),
+                                   dict(cfg=variant, family="ppforeign-" + isa))
+
+
+_wrap("C05", gen_surface_ppforeign)
